@@ -11,3 +11,7 @@ import SciVerif.Props.C09
 import SciVerif.Tie.C02
 import SciVerif.Tie.C03
 import SciVerif.Tie.C09
+import SciVerif.Props.C14
+import SciVerif.Props.C15
+import SciVerif.Tie.C14
+import SciVerif.Tie.C15
